@@ -2,3 +2,5 @@ pub mod c14;
 pub mod c13;
 pub mod c20;
 pub mod c09;
+pub mod c16;
+pub mod c17;
